@@ -166,21 +166,12 @@ Definition ok_C04 (b : bytes) (o : observed) : bool :=
       else false
   end.
 
-(** Known findings (see /verif/known_findings.txt).
-    1 (F5): a well-formed frame whose LAST TLV has an empty value is rejected
-       with BufferTooShort (TlvSet::deserialize loops `while buffer.len() > 4`). *)
-Definition last_tlv_empty (b : bytes) : bool :=
-  match spec_tlvs (spec_tlv_area b) with
-  | Some l => match rev l with (_, []) :: _ => true | _ => false end
-  | None => false
-  end.
-
-Definition kf_C04 (c : case) : Z :=
-  match o_res (snd c) with
-  | ObsErr EBufferTooShort =>
-      if spec_wellformed (fst c) then if last_tlv_empty (fst c) then 1 else 0 else 0
-  | _ => 0
-  end.
+(** Known findings (see /verif/known_findings.txt): none.
+    F5 (a well-formed frame whose LAST TLV has an empty value was rejected with
+    BufferTooShort because TlvSet::deserialize looped `while buffer.len() > 4`)
+    was repaired in /repo by commit 4fcd0b5 and is no longer excused: such a
+    rejection is reported as a violation like any other. *)
+Definition kf_C04 (c : case) : Z := 0.
 
 Definition run_cases :=
   run_cases_gen agree_C04 (fun c => ok_C04 (fst c) (snd c)) kf_C04.
